@@ -91,6 +91,9 @@ class Builder:
                 # not declared as a port (internal visibility), though its direction attribute is set
                 from hdl21.signal import PortDir
                 s = h.Signal(name=name, width=width, direction=PortDir.INPUT if kind == "plain_din" else PortDir.OUTPUT)
+            elif kind in ("inout_role_ab", "port_role_ab"):
+                # declared as a port (bidirectional / undirected) AND carrying source and destination roles
+                s = (h.Inout if kind == "inout_role_ab" else h.Port)(name=name, width=width, src=self._role(B, b, "A"), dest=self._role(B, b, "B"))
             elif kind == "role_ab":
                 s = h.Signal(name=name, width=width, src=self._role(B, b, "A"), dest=self._role(B, b, "B"))
             elif kind == "role_ba":
